@@ -485,11 +485,25 @@ ONE_SHOT_CALLS = {"map", "filter", "zip", "iter", "reversed", "enumerate"}
 
 
 def one_shot_rules(ctx, repo, eff):
-    def one_shot(expr):
+    def one_shot(expr, module=None, ci=None, depth=0):
         if isinstance(expr, ast.GeneratorExp):
             return "generator expression"
         if isinstance(expr, ast.Call) and isinstance(expr.func, ast.Name) and expr.func.id in ONE_SHOT_CALLS:
             return f"{expr.func.id}() object"
+        if isinstance(expr, ast.Call) and module is not None and depth < 3:
+            # the result of a library function every `return` of which hands out such an object
+            callee = None
+            if isinstance(expr.func, ast.Name):
+                r = repo.resolve(module, expr.func.id)
+                callee = r if isinstance(r, FuncInfo) else None
+            elif isinstance(expr.func, ast.Attribute) and isinstance(expr.func.value, ast.Name):
+                owner = ci if (ci is not None and expr.func.value.id in ("cls", "self", ci.name)) else repo.resolve_expr_class(module, expr.func.value)
+                callee = repo.find_method(owner, expr.func.attr) if owner is not None else None
+            if callee is not None and not isinstance(callee.node, ast.Lambda):
+                rets = [x for x in ast.walk(callee.node) if isinstance(x, ast.Return) and x.value is not None]
+                kinds = [one_shot(x.value, callee.module, getattr(callee, "cls", None), depth + 1) for x in rets]
+                if rets and all(kinds):
+                    return f"result of {callee.qualname}(), which returns a {kinds[0]}"
         return None
     n = 0
     for ci in repo.all_classes():
@@ -497,7 +511,7 @@ def one_shot_rules(ctx, repo, eff):
             if attr in ci.methods:
                 continue
             n += 1
-            k = one_shot(expr)
+            k = one_shot(expr, ci.module, ci)
             if k or n <= 1:
                 ctx.ob("shared/one-shot-iterator", f"{ci.qualname}.{attr}", not k, f"class-level {k}" if k else "not an iterator", f"{ci.module.relpath}:{expr.lineno}")
     for m in repo.modules.values():
@@ -505,7 +519,7 @@ def one_shot_rules(ctx, repo, eff):
             continue
         for name, expr in m.assigns.items():
             n += 1
-            k = one_shot(expr)
+            k = one_shot(expr, m, None)
             if k:
                 ctx.ob("shared/one-shot-iterator", f"{m.short}:{name}", False, f"module-level {k}", f"{m.relpath}:{expr.lineno}")
     ctx.ob("shared/one-shot-iterator", "all class-level and module-level initialisers", True, f"{n} initialisers inspected", "")
